@@ -47,6 +47,48 @@ print(hashlib.sha1(json.dumps(sig).encode()).hexdigest())
 '''
 
 
+HIST_DATA = "mutation_id\tsample_id\tref_counts\talt_counts\tmajor_cn\tminor_cn\tnormal_cn\n" + "".join(
+    "%s\tS%d\t%d\t%d\t1\t1\t2\n" % (m, k, r, a) for m, rows in (("A0", ((152, 148), (155, 145), (140, 160))), ("B0", ((208, 92), (279, 21), (260, 40))), ("C0", ((248, 52), (159, 141), (229, 71))),
+                                                             ("D0", ((256, 44), (291, 9), (286, 14))), ("E0", ((277, 23), (292, 8), (271, 29)))) for k, (r, a) in enumerate(rows))
+
+HIST = r'''
+import sys, hashlib, json, io, os, contextlib, gzip, pickle
+from phyclone.run import run
+from phyclone.tree import Tree
+in_file, out_file = sys.argv[1], sys.argv[2]
+fd = os.open(os.devnull, os.O_WRONLY); os.dup2(fd, 1)
+for seed in PRE + (7,):
+    run(in_file=in_file, out_file=out_file, num_iters=ITERS, burnin=1, seed=seed, num_chains=1, num_particles=10, print_freq=10**9, precision=400)
+with gzip.GzipFile(out_file, "rb") as fh:
+    res = pickle.load(fh)
+sig = [(e["iter"], float(e["alpha"]).hex(), float(e["log_p_one"]).hex(), sorted(sorted(c) for c in Tree.from_dict(e["tree"]).get_clades())) for e in res[0]["trace"]]
+sys.stderr.write("SIG " + hashlib.sha1(json.dumps(sig).encode()).hexdigest() + "\n")
+'''
+
+
+def history(iters):
+    """the same seeded run (input file of finding F15: 5 mutations x 3 samples) in a fresh process and in processes that ran other seeds before it - what a
+    pool worker that is handed several chains does: bit-identical traces demanded"""
+    tmp = tempfile.mkdtemp(prefix="verif_c18_")
+    outs = []
+    try:
+        inp = os.path.join(tmp, "in.tsv")
+        open(inp, "w").write(HIST_DATA)
+        procs = []
+        for k, pre in enumerate(((), (2,), (1, 3))):
+            procs.append(subprocess.Popen([sys.executable, "-c", HIST.replace("ITERS", str(iters)).replace("PRE", repr(pre)), inp, os.path.join(tmp, "out%d.pkl.gz" % k)],
+                                          stdout=subprocess.DEVNULL, stderr=subprocess.PIPE, text=True))
+        for p_ in procs:
+            _, e = p_.communicate(timeout=1500)
+            sig = [l for l in e.splitlines() if l.startswith("SIG ")]
+            outs.append(sig[-1][4:] if sig else "ERROR: " + e[-300:])
+    finally:
+        import shutil
+
+        shutil.rmtree(tmp, ignore_errors=True)
+    return outs
+
+
 def many_clones(n_proc, iters):
     """the same seeded chain with 12-14 clones in n_proc fresh processes: rustworkx's per-process hash state differs between them (finding F13)"""
     procs = [subprocess.Popen([sys.executable, "-c", LARGE.replace("ITERS", str(iters))], stdout=subprocess.PIPE, stderr=subprocess.PIPE, text=True) for _ in range(n_proc)]
@@ -74,6 +116,7 @@ def run(ctx):
     r = C.run_registry(lg)
     r.log = lg
     dsl.verify(ctx, repo, r, "C18", C.RUN, C.h_run, expect_covers=["multi-chain", "single-chain"])
+    dsl.verify(ctx, repo, dsl.Registry(), "C18", "phyclone.run.run_phyclone_chain", C.h_chain_isolation, expect_covers=["chain-isolation"])
     ctx.trust(*r.assumed)
     files = C.run_path_files(core.REPO)
     if len(files) < 20:
@@ -101,6 +144,11 @@ def run(ctx):
     if not same:
         ctx.fail("C18.smoke.hash-seed", "traces differ across PYTHONHASHSEED values: %s" % outs, {"outputs": outs}, True)
     ctx.samples.append({"smoke": outs[0][1][:120]})
+    hist = history(100 if ctx.tier == "quick" else 300)
+    same_h = len(set(hist)) == 1 and not hist[0].startswith("ERROR")
+    ctx.add_bounded("one seeded chain in a fresh process and after other chains in the same process (as in a pool worker that runs several chains)", "3 processes, 6 data points x 3 samples - a test, not assurance", len(hist), len(hist), same_h)
+    if not same_h:
+        ctx.fail("C18.smoke.process-history", "the trace of a seeded chain depends on what its process computed before: %s" % hist, {"outputs": hist}, True)
     n_proc, iters = (6, 40) if ctx.tier == "quick" else (12, 80)
     big = many_clones(n_proc, iters)
     same_big = len(set(big)) == 1 and not big[0].startswith("ERROR")
